@@ -98,12 +98,69 @@ def run(tier):
             SizeOracle.MEASURE_DEPTH, SizeOracle.MEASURE_SYMBOLS, SizeOracle.MEASURE_BOOL_DAG]
     env = None
     ops_seen = set()
+    batch = []
+
+    def recheck(env, batch):
+        """The analyses must still equal their definitions after the environment has been used for
+        other things (rewriters that read the cached answers, substitutions, simplification)."""
+        import pysmt.rewritings as rw
+        for f in batch[::2]:
+            for fn in (lambda: rw.prenex_normal_form(f), lambda: rw.nnf(f, env), lambda: rw.cnf(f, env), lambda: rw.aig(f, env),
+                       lambda: env.simplifier.simplify(f),
+                       lambda: f.substitute({v: v for v in list(env.fvo.get_free_variables(f))[:1]}),
+                       lambda: rw.conjunctive_partition(f) and list(rw.conjunctive_partition(f))):
+                try:
+                    fn()
+                except Exception:   # noqa: rewriters reject formulas outside their fragment
+                    pass
+        # a caller that modifies an answer it was given must not change later answers
+        junk = env.formula_manager.Symbol("c12_junk_symbol")
+        for f in batch[1::2]:
+            for r in (env.fvo.get_free_variables(f), env.ao.walk(f), env.typeso.walk(f)):
+                for meth, arg in (("add", junk), ("append", junk)):
+                    if hasattr(r, meth):
+                        try:
+                            getattr(r, meth)(arg)
+                        except Exception:   # noqa
+                            pass
+        for f in batch:
+            chk.count(("c12-after-use", tocoq.skey(f)), nontrivial=len(f.args()) > 0)
+            rfv = ref_free_vars(f)
+            got = set(env.fvo.get_free_variables(f))
+            if got != rfv:
+                chk.violation({"kind": "history", "what": "get_free_variables differs from the definition after the environment was used "
+                               "(prenex / nnf / cnf / aig / simplify / substitute on formulas of the same environment)", "formula": f.serialize(),
+                               "reported": sorted(map(str, got)), "definition": sorted(map(str, rfv))}, key="fv-after-use:" + str(tocoq.skey(f))[:200])
+            if env.qfo.is_qf(f) != ref_is_qf(f):
+                chk.violation({"kind": "history", "what": "is_qf differs from the definition after the environment was used", "formula": f.serialize()},
+                              key="qf-after-use:" + str(tocoq.skey(f))[:200])
+            rs = ref_sizes(f, env)
+            for m in MEAS:
+                if env.sizeo.get_size(f, m) != rs[m]:
+                    chk.violation({"kind": "history", "what": "size measure %d differs from its definition after the environment was used" % m,
+                                   "formula": f.serialize()}, key="size-after-use%d:%s" % (m, str(tocoq.skey(f))[:200]))
+            try:
+                ats = env.ao.get_atoms(f)
+            except AssertionError:
+                ats = None
+            ra = ref_atoms(f, env)
+            if (ats is None) != (ra is None) or (ats is not None and set(ats) != ra):
+                chk.violation({"kind": "history", "what": "get_atoms differs from the definition after the environment was used", "formula": f.serialize()},
+                              key="atoms-after-use:" + str(tocoq.skey(f))[:200])
+
     for i in range(n):
         if i % 100 == 0:
+            if env is not None:
+                recheck(env, batch)
+            batch = []
             env = Environment()
-            g = FormulaGen(env, rnd, Config())
-        t = rnd.choice(g.types) if rnd.random() < 0.5 else g.types[0]
+            # every other batch: Boolean structure with many (nested, shadowing) quantifiers over Int/Bool/UF atoms
+            boolq = (i // 100) % 2 == 1
+            g = FormulaGen(env, rnd, Config(bv=False, strings=False, arrays=False, reals=False, custom=False, div=False)
+                           if boolq else Config())
+        t = g.types[0] if boolq else (rnd.choice(g.types) if rnd.random() < 0.5 else g.types[0])
         f = g.gen(t, rnd.randint(1, 5))
+        batch.append(f)
         fvs = env.fvo.get_free_variables(f)
         try:
             ats = env.ao.get_atoms(f)
@@ -143,6 +200,7 @@ def run(tier):
         cases.append((roots, body))
         meta.append(f)
         chk.count(("c12", tocoq.skey(f)), nontrivial=len(f.args()) > 0)
+    recheck(env, batch)
     chk.sample({"formula": meta[0].serialize()[:300], "free": sorted(map(str, env.fvo.get_free_variables(meta[0])))})
     chk.sample({"formula": meta[-1].serialize()[:300]})
     ok_def = ("Definition opt_set_eqb (a b : option (list term)) : bool :=\n"
